@@ -2,6 +2,7 @@ import DoviModel.Proofs.NoPanic
 import DoviModel.Model.Av1
 import DoviModel.Model.RpuFile
 import DoviModel.Model.Nalu
+import DoviModel.Model.St2094
 /-!
 # No-panic theorems for the other parsing entry points (AV1 T.35 OBU, HEVC NAL, RPU file)
 -/
@@ -240,3 +241,75 @@ theorem parseRpuFile_no_panic (c : Nat) (file : Bytes) (hnp : ∀ d, d <:+: file
   | panic => exact absurd hl this
 
 end Dovi.RpuFile
+
+namespace Dovi.St2094
+open Dovi Dovi.NoPanicP
+
+theorem np_readWide (n : Nat) : NoPanicP (readWide n) := by
+  unfold readWide
+  np
+
+theorem np_coefPair (len : Nat) : NoPanicP (coefPair len) := by
+  unfold coefPair
+  repeat' (first | exact np_readWide _ | np_step)
+
+theorem np_parsePiece (len : Nat) : NoPanicP (parsePiece len) := by
+  unfold parsePiece
+  repeat' (first
+    | exact np_readWide _
+    | exact NoPanicP.repeatP _ (np_coefPair _)
+    | exact NoPanicP.repeatP _ (NoPanicP.repeatP _ (np_coefPair _))
+    | np_step)
+
+theorem np_parsePivotsSt (elBits : Nat) : NoPanicP (parsePivotsSt elBits) := by
+  unfold parsePivotsSt
+  repeat' (first | exact NoPanicP.repeatP _ (NoPanicP.readN _) | np_step)
+
+theorem np_parsePiecesOf (len : Nat) (ns : List Nat) : NoPanicP (parsePiecesOf len ns) := by
+  induction ns with
+  | nil => unfold parsePiecesOf; np
+  | cons n ns ih =>
+    unfold parsePiecesOf
+    repeat' (first | exact ih | exact NoPanicP.repeatP _ (np_parsePiece _) | np_step)
+
+theorem np_nlqComp (elBits len : Nat) : NoPanicP (nlqComp elBits len) := by
+  unfold nlqComp
+  repeat' (first | exact np_readWide _ | np_step)
+
+theorem np_parseCm : NoPanicP parseCm := by
+  unfold parseCm
+  repeat' (first
+    | exact NoPanicP.repeatP _ (np_parsePivotsSt _)
+    | exact np_parsePiecesOf _ _
+    | exact NoPanicP.repeatP _ (np_nlqComp _ _)
+    | np_step)
+
+theorem np_parseDm : NoPanicP parseDm := by
+  unfold parseDm
+  repeat' (first | exact NoPanicP.parseContainer _ _ (Or.inl rfl) | np_step)
+
+theorem np_parseBits : NoPanicP parseBits := by
+  unfold parseBits
+  repeat' (first | exact np_parseCm | exact np_parseDm | np_step)
+
+/-- **the ST 2094-10 SEI parser panics only at the third-party exp-Golomb sites** (which need a run of 63 zero
+bits in the unescaped payload) -/
+theorem parse_no_panic (data : Bytes)
+    (hg : ∀ t, trim data = .ok t → Good (bytesToBits (Esc.unescape t))) : parse data ≠ .panic := by
+  unfold parse
+  cases ht : trim data with
+  | error => simp [Res.bind]
+  | panic =>
+    unfold trim at ht
+    split at ht
+    · cases ht
+    · split at ht <;> cases ht
+  | ok t =>
+    simp only [Res.bind]
+    have := (np_parseBits.h _ (hg t ht)).1
+    cases hp : parseBits (bytesToBits (Esc.unescape t)) with
+    | ok v => simp
+    | error => simp
+    | panic => exact absurd hp this
+
+end Dovi.St2094
